@@ -16,6 +16,10 @@
 (*   holv[d]   the last fix-up applied to holiday day d (0 = built-in);    *)
 (*   names     which list of festival names is in use (0 = built-in).      *)
 (*                                                                         *)
+(* Objects that accessors hand out (terms, stars, hour objects, counters)  *)
+(* are NOT part of the state: they belong to the client, and writing       *)
+(* through them (action Write) changes nothing.                            *)
+(*                                                                         *)
 (* The year-table cache (Cache.tla) is deliberately NOT part of this       *)
 (* state: C09 says no result may depend on it.  An observation is a        *)
 (* function of the abstract state named by its key (ChartKey, LunarKey,    *)
@@ -88,6 +92,13 @@ Rename(v) ==
 \* a constructor call with invalid arguments that panics and is recovered by the client
 Bad == UNCHANGED svars
 
+\* the client calls every public setter of every object the accessors of o hand out (solar terms, stars, hour
+\* objects, nine-day and dog-day counters ...): those objects are the client's own, no part of the state changes.
+\* (The chart is not among them: it is a view of o, see SetSect.)
+Write(o) ==
+  /\ live[o].t # 0
+  /\ UNCHANGED svars
+
 SNext ==
   \/ \E o \in Objs, t \in Instants : Create(o, t)
   \/ \E h \in Handles, o \in Objs : Handle(h, o)
@@ -95,6 +106,7 @@ SNext ==
   \/ \E k \in FixIds : Fix(k)
   \/ \E v \in {0, 1} : Rename(v)
   \/ Bad
+  \/ \E o \in Objs : Write(o)
 
 (***************************************************************************)
 (* What each observation may depend on.                                    *)
